@@ -40,10 +40,11 @@ func Ends(n *Node, word []int, i int, has [][]bool) uint32 {
 		if n.Min == 0 {
 			out = cur
 		}
-		if len(word) > 5 {
-			panic("rxparse.Ends: words longer than 5 units are not supported")
+		if len(word) > 30 {
+			panic("rxparse.Ends: words longer than 30 units are not supported")
 		}
-		var seen uint64 // bitmap over position sets (each < 64 since len(word) <= 5)
+		var seen uint64             // bitmap over position sets < 64 (always the case for len(word) <= 5)
+		var seenBig map[uint32]bool // longer words
 		for k := 1; n.Max < 0 || k <= n.Max; k++ {
 			var next uint32
 			for j := 0; j <= len(word); j++ {
@@ -59,10 +60,20 @@ func Ends(n *Node, word []int, i int, has [][]bool) uint32 {
 				// The sequence of position sets is a function of its predecessor, so it is
 				// periodic once a set recurs; past Min everything after the first occurrence has
 				// been added already. Before Min we must keep counting (bounded by Min itself).
-				if seen&(1<<cur) != 0 {
-					break
+				if cur < 64 {
+					if seen&(1<<cur) != 0 {
+						break
+					}
+					seen |= 1 << cur
+				} else {
+					if seenBig[cur] {
+						break
+					}
+					if seenBig == nil {
+						seenBig = map[uint32]bool{}
+					}
+					seenBig[cur] = true
 				}
-				seen |= 1 << cur
 				out |= cur
 			}
 		}
